@@ -14,6 +14,13 @@ NOTE = ("exhaustive only within the bounded universes listed in the evidence fil
         "harness/realize.py are trusted")
 
 ENGINES = {
+    "tlc-binary": ("spec/BinaryTrie.tla", "TLA+ specification of trie.binary.BinaryTrie (_set with its eight splitting "
+                   "cases and two compressions transcribed; BCanon, BLookup, Conflict defined independently) and of the "
+                   "helpers of trie.branches; model checked by TLC; behaviours and per-state branch / witness tables "
+                   "replayed on the real code by harness/binary.py with its own realisation of the node formats"),
+    "tlc-smt": ("spec/SMT.tla", "TLA+ specification of trie.smt (sparse Merkle tree in collapsed normal form, set / "
+                "delete / calc_root transcribed, FullTree defined by recursive halving; SparseMerkleProof fed truncated "
+                "update lists), model checked by TLC for depths 8, 16, 64 and 256; replayed by harness/smt.py"),
     "tlc-fogwalk": ("spec/FogWalk.tla", "TLA+ specification of the documented fog-guided walking loop (HexaryTrieFog + "
                     "TrieFrontierCache + traverse / traverse_from + simulated nodes) interleaved with mutations of the "
                     "trie, model checked by TLC over all schedules; SpecOrdered is NodeIterator.nodes(); behaviours "
@@ -91,6 +98,26 @@ add("C10", "tlc-hexary", "KeyAfterIsSucc (transcription of _get_key_after equals
     "key set), FirstIsMin, PreorderItemsSorted, PreorderIsTraverse on every reachable trie, and OrderedIsPreorder on "
     "the fog-walk specification restricted to the left-most prefix (the loop of nodes()); for every reachable "
     "state the real keys/items/values/nodes/next are compared with the emitted sequences and answers")
+T_S2C = ("TLA+ specification model checked exhaustively with TLC and simulated; bound to the code by replaying every "
+         "TLC-generated transition / state table (and random long behaviours) on the real code through its public API")
+add("C12", "tlc-binary", "Canonical (root = BCanon(contents)), MapOK, PrefixFree, RefusalRule (set refused exactly on a "
+    "prefix conflict, refused calls change nothing, refused deletes would have changed nothing), AppendOnly and "
+    "PastRootsReadable are model checked over all histories of set / delete / delete_subtrie; every transition is "
+    "replayed and get / exists / root hash / exception class / earlier roots compared", technique=T_S2C)
+add("C13", "tlc-binary", "BranchOrRefusal, BranchConfirms, BranchUnforgeable (every subset of the branch with the rest "
+    "of the database), ExistsIffPrefix, TrieNodesExact, WitnessSound, WitnessSufficient, WitnessRefusal are invariants "
+    "of every reachable trie; for every reachable state the real helpers are run on every key / prefix and "
+    "if_branch_valid is offered every corrupted branch (node removed, truncated, node altered, branch of another "
+    "key) with every claimed value", technique=T_S2C)
+add("C14", "tlc-smt", "IsFull (tree = FullTree(contents)), GetMatches, ClearedIsInitial, BranchVerifies and "
+    "UpdateListIsPath are model checked over all histories of set / delete with blank and non-blank default for "
+    "key sizes 1, 2 and 8 (thorough 32); every transition replayed: root, get, exists, branch, calc_root, returned "
+    "hashes, from_db", technique=T_S2C)
+add("C15", "tlc-smt", "ProofInSync and ShortestListSuffices are model checked with any tracked key, every update "
+    "stream of bounded length and every truncation length of the streamed hash list, key sizes 1, 2, 8 and 32 with "
+    "key pairs whose difference is a long run of ones; every transition replayed on a real SparseMerkleProof "
+    "(refusal exactly when too short, proof unchanged by a refusal, value / branch / root equal to the tree's)",
+    technique=T_S2C)
 
 
 def build():
